@@ -800,8 +800,26 @@ func (x *Unit) applyContract(st *State, pc *preparedCall) []Term {
 			x.assume(st, env.boolOf(en.Expr))
 		}
 	}
+	// the callee's let-bindings are values of its entry state
+	letVals := map[string]Term{}
+	if len(c.Lets) > 0 {
+		lenv := x.contractEnv(pre, pre, pc, nil)
+		for _, l := range c.Lets {
+			e, err := ParseSpec(l.Init)
+			if err != nil {
+				x.fail(pc.node, "%v", err)
+			}
+			for k, v := range letVals {
+				lenv.names[k] = v
+			}
+			letVals[l.Name] = x.define("let:"+l.Name, lenv.eval(e))
+		}
+	}
 	if len(c.Ensures) > 0 {
 		env := x.contractEnv(st, pre, pc, rets)
+		for k, v := range letVals {
+			env.names[k] = v
+		}
 		for _, en := range c.Ensures {
 			if isFrameInternal(en.Expr, c) {
 				continue // talks about the callee's own call trace / ghost state: meaningless to the caller
@@ -1271,6 +1289,11 @@ func (x *Unit) unitOfContract(c *FuncContract) *FuncUnit {
 }
 
 func (x *Unit) callMods(e *ast.CallExpr, ms *modSet) {
+	defer func(before bool) {
+		if !before && ms.all && os.Getenv("GOVC_DEBUG") != "" {
+			fmt.Fprintf(os.Stderr, "mods: 'everything' because of call %s at %s\n", types.ExprString(e.Fun), x.P.Fset.Position(e.Pos()))
+		}
+	}(ms.all)
 	if tv, ok := x.info.Types[e.Fun]; ok && tv.IsType() {
 		return
 	}
@@ -1414,9 +1437,21 @@ func (x *Unit) syncMods(e *ast.CallExpr, fn *types.Func, ms *modSet) {
 		if len(e.Args) > 0 {
 			if u, ok := ast.Unparen(e.Args[0]).(*ast.UnaryExpr); ok {
 				if a, ok := ast.Unparen(u.X).(*ast.SelectorExpr); ok {
-					if p, ok := x.typeOf(a.X).Underlying().(*types.Pointer); ok {
-						comp, _, _ := x.fieldComp(p.Elem(), a.Sel.Name)
-						ms.comps[comp] = true
+					if t := x.typeOf(a.X); t != nil {
+						if p, ok := t.Underlying().(*types.Pointer); ok {
+							comp, _, _ := x.fieldComp(p.Elem(), a.Sel.Name)
+							ms.comps[comp] = true
+							return
+						}
+					}
+					if v, ok := x.info.ObjectOf(a.Sel).(*types.Var); ok && x.isPkgLevel(v) {
+						ms.comps[x.globalComp(v)] = true
+						return
+					}
+				}
+				if id, ok := ast.Unparen(u.X).(*ast.Ident); ok {
+					if v, ok := x.info.ObjectOf(id).(*types.Var); ok && x.isPkgLevel(v) {
+						ms.comps[x.globalComp(v)] = true
 						return
 					}
 				}
@@ -1469,9 +1504,6 @@ func isFrameInternal(e SExpr, c *FuncContract) bool {
 	ghosts := map[string]bool{}
 	for _, g := range c.Ghosts {
 		ghosts[g.Name] = true
-	}
-	for _, l := range c.Lets {
-		ghosts[l.Name] = true
 	}
 	found := false
 	var walk func(e SExpr)
